@@ -964,6 +964,28 @@ func ConstAlternatives(v ssa.Value) (alts [][]byte, ok bool) {
 			return
 		}
 		switch y := Strip(x).(type) {
+		case *ssa.Parameter:
+			// a helper's parameter: the constants its call sites pass
+			h := y.Parent()
+			idx := -1
+			for i, q := range h.Params {
+				if q == y {
+					idx = i
+				}
+			}
+			sites := sitesOf(h)
+			if !Eligible(h) || idx < 0 || len(sites) == 0 {
+				ok = false
+				return
+			}
+			for _, s := range sites {
+				a := Args(s)
+				if idx >= len(a) {
+					ok = false
+					return
+				}
+				rec(a[idx], d+1)
+			}
 		case *ssa.Phi:
 			for _, e := range y.Edges {
 				rec(e, d+1)
